@@ -139,25 +139,40 @@ class World(object):
         return r
 
     # ---- observation of one process as a Coq `proc`
-    def obs_proc(self, p):
-        pool = self.pool
-        so = pool.stdout_disp(p)
-        si = pool.stdin_disp(p)
-        pipe = pool.pipe(p)
+    def obs_listener(self, p):
+        so = self.pool.stdout_disp(p)
         evid = getattr(p.event, 'vid', -1) if p.event is not None else None
         ls = env.LS_NAMES.get(p.listener_state, 'ACK') if p.listener_state is not None else 'ACK'
         if so is not None:
-            l = '(mkL %s %s %s %s %s %s)' % (
+            return '(mkL %s %s %s %s %s %s)' % (
                 ls, bytes_lit(so.state_buffer), coq_opt(zlit(so.resultlen)) if so.resultlen is not None else 'None',
                 bytes_lit(so.result), coq_opt(zlit(evid)) if evid is not None else 'None', blit(so.closed))
-        else:
-            l = '(mkL %s [] None [] %s true)' % (ls, coq_opt(zlit(evid)) if evid is not None else 'None')
+        return '(mkL %s [] None [] %s true)' % (ls, coq_opt(zlit(evid)) if evid is not None else 'None')
+
+    def obs_proc(self, p):
+        pool = self.pool
+        si = pool.stdin_disp(p)
+        pipe = pool.pipe(p)
+        l = self.obs_listener(p)
         return '(mkP %s %s %s %s %s %s %s %s %s [])' % (
             env.PS_NAMES[p.state], zlit(p.pid), blit(p.killing), l, blit(si is not None),
             bytes_lit(si.input_buffer) if si is not None else '[]',
             blit(si.closed) if si is not None else 'true',
             bytes_lit(pipe.accepted) if pipe is not None else '[]',
             blit(pipe.broken) if pipe is not None else 'false')
+
+    def raw_key(self):
+        """cheap hashable summary of the same attributes (no Coq rendering)"""
+        out = []
+        pool = self.pool
+        for p in pool.procs:
+            so, si, pipe = pool.stdout_disp(p), pool.stdin_disp(p), pool.pipe(p)
+            out.append((p.state, p.pid, p.killing, p.listener_state,
+                        getattr(p.event, 'vid', -1) if p.event is not None else None,
+                        (so.state_buffer, so.resultlen, so.result, so.closed) if so is not None else None,
+                        (si.input_buffer, si.closed) if si is not None else None,
+                        (pipe.accepted, pipe.broken) if pipe is not None else None))
+        return tuple(out)
 
     def obs_key(self):
         """hashable summary of everything the model compares"""
@@ -199,13 +214,16 @@ def run_case(nlisteners, handler_kind, setup_ops, ops, maxdig):
     for op in setup_ops:
         w.apply(op)
     start = w.obs_sys()
+    run_case.last_start = w.raw_key()
+    run_case.last_start_listeners = [w.obs_listener(p) for p in w.pool.procs]
     op_terms, exp_terms, trace = [], [], []
     for op in ops:
         op_terms.append(op_term(w, op))
         outs = w.apply(op)
         key = w.obs_key()
-        trace.append((key, tuple(outs)))
+        trace.append((w.raw_key(), tuple(outs)))
         exp_terms.append('(%s, %s)' % (coq_list(list(key)), coq_list(outs)))
+    run_case.last_final_listeners = [w.obs_listener(p) for p in w.pool.procs]
     case = '(%s, %s, %s,\n     %s,\n     %s)' % (zlit(handler_kind), zlit(maxdig), start, coq_list(op_terms), coq_list(exp_terms))
     return case, trace
 
@@ -216,3 +234,64 @@ SETUPS = {
     'BUSY': [['spawn', 0, 101], ['running', 0], ['feed', 0, b'READY\n'], ['dispatch', 7, [['room', env.BIG]]]],
     'UNKNOWN': [['spawn', 0, 101], ['running', 0], ['feed', 0, b'XXXXXXX']],
 }
+
+
+# ---------------------------------------------------------------- monitors
+# Direct checks of the property statement on an implementation trace (raw keys):
+# per process (state, pid, killing, listener_state, event, (buf, rlen, result,
+# closed) | None, (ibuf, iclosed) | None, (accepted, broken) | None).
+
+def monitor(start, ops, trace, envelopes):
+    """Returns None, or a description of the first step at which the
+    implementation's own trace breaks the property statement."""
+    RUNNING, READY, BUSY, UNKNOWN = (env.ProcessStates.RUNNING, EventListenerStates.READY,
+                                     EventListenerStates.BUSY, EventListenerStates.UNKNOWN)
+    n = len(start)
+    bal = [1 if start[i][4] is not None else 0 for i in range(n)]
+    written = []
+    for i in range(n):
+        acc = start[i][7][0] if start[i][7] is not None else b''
+        ib = start[i][6][0] if start[i][6] is not None else b''
+        written.append(acc + ib)
+    pre = start
+    for k, (op, (post, outs)) in enumerate(zip(ops, trace)):
+        kind = op[0]
+        where = {'step': k, 'operation': [x if not isinstance(x, (bytes, bytearray)) else list(x) for x in op]}
+        if kind != 'dispatch':
+            i = op[1]
+            for j in range(n):
+                if j != i and post[j] != pre[j]:
+                    return dict(where, broken='an operation on listener %d changed listener %d' % (i, j))
+            if kind == 'spawn' and 'SInapplicable' not in outs:
+                written[i] = b''
+            if kind == 'feed' and pre[i][3] == UNKNOWN and pre[i][5] is not None and not pre[i][5][3]:
+                if post[i][3] != UNKNOWN or post[i][5][0] != b'' or outs:
+                    return dict(where, broken='a listener in UNKNOWN state reacted to its output')
+        for o in outs:
+            if o.startswith('SSent '):
+                i = int(o.split()[1])
+                vid = op[1]
+                if not (pre[i][0] == RUNNING and pre[i][3] == READY and post[i][3] == BUSY and post[i][4] == vid):
+                    return dict(where, broken='event sent to a listener that was not RUNNING+READY or is not BUSY afterwards')
+                bal[i] += 1
+            elif o.startswith('SOut ') and ('(ORejected (Some' in o or '(OProcessed (Some' in o):
+                bal[int(o.split()[1])] -= 1
+        if kind == 'dispatch':
+            # a write that reached the stdin dispatcher appended one whole envelope
+            for i in range(n):
+                if pre[i][6] is not None and post[i][6] is not None and pre[i][7] is not None and \
+                        len(post[i][7][0]) + len(post[i][6][0]) > len(pre[i][7][0]) + len(pre[i][6][0]):
+                    written[i] += envelopes[op[1]]
+        for i in range(n):
+            slot = 1 if post[i][4] is not None else 0
+            if bal[i] != slot or bal[i] not in (0, 1):
+                return dict(where, broken='listener %d: events sent minus events given back = %d, event slot = %d' % (i, bal[i], slot))
+            if post[i][7] is not None:
+                acc = post[i][7][0]
+                if post[i][6] is not None and not post[i][6][1]:
+                    if acc + post[i][6][0] != written[i]:
+                        return dict(where, broken='listener %d: accepted + buffered stdin bytes are not the whole envelopes in order' % i)
+                elif not written[i].startswith(acc):
+                    return dict(where, broken='listener %d: accepted stdin bytes are not a prefix of the envelopes' % i)
+        pre = post
+    return None
